@@ -329,6 +329,43 @@ def monitor(ctx, extended=False):
                 if live[0] == 'ok' and isinstance(live[1], (dict, list)):
                     held.append(live[1])
                 events.add((fn, sf, sq, json.dumps(kwargs, sort_keys=True)))
+        # whatever a caller does to a returned result - here: every container in it, nested ones included, is wrecked - the same call gives the same answer
+        def wreck(x):
+            if isinstance(x, dict):
+                for kk in list(x.keys()):
+                    if isinstance(x[kk], (dict, list)):
+                        wreck(x[kk])
+                    elif isinstance(x[kk], (int, float)) and not isinstance(x[kk], bool):
+                        x[kk] = x[kk] * 1.37 + 1.0
+                if len(x) > 2:
+                    del x[list(x.keys())[0]]
+            elif isinstance(x, list):
+                for i_ in range(len(x)):
+                    if isinstance(x[i_], (dict, list)):
+                        wreck(x[i_])
+                    elif isinstance(x[i_], (int, float)) and not isinstance(x[i_], bool):
+                        x[i_] = x[i_] * 1.37 + 1.0
+        F.use_sf, F.use_sqrtcx = True, True
+        for b in pools(ctx.rng)[:3]:
+            g0 = {0.15: b['d'] / 2.0, 0.5: b['d'] * 1.01, 0.85: b['d'] * 2.72}
+            a8 = [b['vls'], b['Dp'], b['d'], b['epsilon'], b['nu'], b['rhol'], b['rhos'], b['Cv']]
+            for fn_, args_, kw_ in (('framework.Erhg_graded', [g0] + a8[:2] + a8[3:], {'get_dict': True}),
+                                    ('framework.Erhg_graded', [g0] + a8[:2] + a8[3:], {'get_dict': True, 'Cvt_eq_Cvs': True}),
+                                    ('framework.Cvs_Erhg', a8, {'get_dict': True}), ('framework.Cvt_Erhg', a8, {'get_dict': True}),
+                                    ('framework.create_fracs', [g0, b['Dp'], b['nu'], b['rhol'], b['rhos']], {})):
+                mod_, name_ = fn_.split('.')
+                ctx.count('evaluations')
+                try:
+                    r1 = getattr(mods[mod_], name_)(*[dict(a) if isinstance(a, dict) else a for a in args_], **kw_)
+                    wreck(r1)
+                    r2 = ('ok', getattr(mods[mod_], name_)(*[dict(a) if isinstance(a, dict) else a for a in args_], **kw_))
+                except Exception as e:   # noqa
+                    r2 = ('exc', type(e).__name__)
+                want = fresh.call(fn_, args_, kw_, True, True)
+                if r2[0] != want[0] or (r2[0] == 'ok' and not same(r2[1], want[1])):
+                    ctx.violation(f'{fn_}: after the caller wrecked the result of the first call, the same call returns {str(r2)[:160]}; a fresh interpreter returns {str(want)[:160]}',
+                                  {'function': fn_, 'args': [str(a) for a in args_], 'kwargs': kw_}, key='returned-object-aliased')
+                events.add((fn_, 'wrecked-result'))
         # a function may not edit the containers it is given: the same call repeated with the caller's own list / dict gives the same answer
         import copy as _copy
         import unit_conv as UC
